@@ -747,7 +747,7 @@ fn gen_cases(opts: &Opts, keys: &Keys) -> Vec<Value> {
             7 => {
                 // adversarial snapshot
                 let mut s = schema::AuthorizerSnapshot::decode(&snap[..]).unwrap();
-                let what = match rng.gen_range(0..12) {
+                let what = match rng.gen_range(0..14) {
                     0 => {
                         s.world.iterations = *pick(&mut rng, &[99u64, 100, 101, u64::MAX]);
                         "iterations"
@@ -810,10 +810,32 @@ fn gen_cases(opts: &Opts, keys: &Keys) -> Vec<Value> {
                         s.world.public_keys.push(schema::PublicKey { algorithm: 3, key: vec![1, 2, 3] });
                         "public keys"
                     }
+                    11 | 12 => {
+                        // `right` is default symbol 4: the token states right("file1", "read"), the authorizer time(..)
+                        let var = |i: u32| term(schema::term_v2::Content::Variable(i));
+                        let body = schema::PredicateV2 { name: 4, terms: vec![var(1), var(2)] };
+                        let head = schema::PredicateV2 { name: *pick(&mut rng, &[4u64, 2, 1024]), terms: vec![var(*pick(&mut rng, &[77u32, 3, 1])), var(9)] };
+                        let rule = schema::RuleV2 { head, body: vec![body], expressions: vec![], scope: vec![] };
+                        if rng.gen() {
+                            s.world.authorizer_block.rules_v2.push(rule);
+                        } else {
+                            s.world.authorizer_policies.push(schema::Policy { queries: vec![rule], kind: 0 });
+                        }
+                        "rule whose head variable is bound by no body predicate"
+                    }
                     _ => {
                         s.world.blocks.clear();
                         "no blocks"
                     }
+                };
+                // a snapshot taken after a completed run is not evaluated again: half of the time present it as one taken before
+                // (no execution time, no iterations), so that what it carries is actually run
+                let what = if what != "execution_time" && what != "iterations" && rng.gen() {
+                    s.execution_time = 0;
+                    s.world.iterations = 0;
+                    format!("{what}, not yet run")
+                } else {
+                    what.to_string()
                 };
                 cases.push(json!({"op": "untrusted", "kind": "snapshot", "hex": hex::encode(s.encode_to_vec()), "what": what}));
             }
